@@ -481,7 +481,13 @@ func r6C10(c *Ctx) {
 				} else {
 					fs = append(fs, FactOf(lf.V, false))
 				}
-				if !HasFact(fs, pr.allowed) {
+				okLeaf := false
+				for _, f := range fs {
+					if FactMatchesDeep(f, pr.allowed, fs) {
+						okLeaf = true
+					}
+				}
+				if !okLeaf {
 					bad = "the return at " + p.Pos(ret.Pos()) + " can answer false for another reason (" + TermOf(lf.V).String() + ")"
 				}
 			}
@@ -1238,7 +1244,21 @@ func r6C12(c *Ctx) {
 	} else {
 		n := 0
 		bad := ""
-		for _, ci := range AllCalls(fn) {
+		type site struct {
+			ci ssa.CallInstruction
+			in *ssa.Function
+		}
+		var sites []site
+		for _, g := range samePkgClosure(p, fn) { // the filtering loop may live in a helper
+			if g != fn && len(CallsIn(g, "util.IsOwnedBy")) == 0 {
+				continue
+			}
+			for _, ci := range AllCalls(g) {
+				sites = append(sites, site{ci, g})
+			}
+		}
+		for _, st := range sites {
+			ci := st.ci
 			bi, ok := ci.Common().Value.(*ssa.Builtin)
 			if !ok || bi.Name() != "append" || len(ci.Common().Args) < 2 {
 				continue
@@ -1248,7 +1268,7 @@ func r6C12(c *Ctx) {
 			}
 			n++
 			okv := false
-			for _, f := range FactsFor(fn).At(ci.Block()) {
+			for _, f := range FactsFor(st.in).At(ci.Block()) {
 				if !FTrue(MResult("IsOwnedBy", 0))(f) {
 					continue
 				}
